@@ -1,9 +1,10 @@
 SPEC = {
-    'module': 'EV.Props.C17audit',
+    'module': 'EV.Props.C17retry',
     'theorems': ['EV.Rpc.C17_headers_cap', 'EV.Rpc.C17_headers', 'EV.Rpc.C17_history',
                  'EV.Rpc.C17_invalidate_any',
                  'EV.Rpc.C17_history_cache', 'EV.Rpc.C17_get_history', 'EV.Rpc.C17_subscribe',
-                 'EV.Rpc.C17_notify', 'EV.Rpc.C17_invalidate'],
+                 'EV.Rpc.C17_notify', 'EV.Rpc.C17_invalidate',
+                 'EV.Index.C17_retry_attempt', 'EV.Index.C17_retry_bounded', 'EV.Index.C17_retry_whole'],
     'suites': ['limits', 'system'],
     'entry': {'system': 'run_limits'},
     'assumptions': [
@@ -15,6 +16,7 @@ SPEC = {
         'to hold at start-up, to be preserved by every request and notification, and to be re-established '
         'by the invalidation of _notify_sessions when only touched script hashes changed (C17_invalidate); '
         'a reorg that ends at the already-notified height is F4 (C07/C10), not covered here',
+        'the retry loop of DB.limited_history (a request landing between the history commit and the state commit of a flush, or inside a back-out) is modelled as one attempt per database view (EV.Index.limitedHistoryLoop): C17_retry_whole shows a result shorter than the limit is the whole history of the view that answered; on the real server the flush-window part of the limits suite issues get_history for scripts of L-2..L+1 entries inside that window (direct oracle; every request is checked to have been waiting when the flush completed)',
         'the LRU capacity of the caches (1000 entries) is not modelled: eviction only turns hits into misses',
         'the model is tied to session.py / db.py by differential execution, not by proof',
         'the theorems are about one request against a fixed index; that the reported count is the count returned also when a reorganisation lands between request validation and the queued disk read is judged on every block.headers reply of the real server under the seeded scheduler (suite system, entry run_limits), not proved',
